@@ -110,6 +110,8 @@ var layouts = []layout{
 	{name: "root-inside-out", paths: []string{"parent/out/idl/svc.thrift", "parent/out/idl/m2.thrift", "parent/out/idl/sub/m3.thrift", "parent/out/idl/m4.thrift"}, root: "parent/out/idl", out: "parent/out", minMods: 1},
 	{name: "include-outside-root", paths: []string{"idl/a/svc.thrift", "idl/b/m2.thrift", "idl/a/m3.thrift", "idl/a/m4.thrift"}, root: "idl/a", out: "parent/out", minMods: 2, ancestry: true},
 	{name: "include-in-sibling-with-root-prefix", paths: []string{"idl/svc.thrift", "idl2/m2.thrift", "idl/m3.thrift", "idl/m4.thrift"}, root: "idl", out: "parent/out", minMods: 2, ancestry: true},
+	{name: "implicit-root-sibling-with-name-prefix", paths: []string{"idl/svc/svc.thrift", "idl/svc2/m2.thrift", "idl/svc/m3.thrift", "idl/svc22/m4.thrift"}, root: "", out: "parent/out", minMods: 2},
+	{name: "implicit-root-sibling-is-name-prefix", paths: []string{"idl/svc2/svc.thrift", "idl/svc/m2.thrift", "idl/svc2/m3.thrift", "idl/s/m4.thrift"}, root: "", out: "parent/out", minMods: 2},
 	{name: "dotdot-named-dir", paths: []string{"idl/svc.thrift", "idl/..x/m2.thrift", "idl/m3.thrift", "idl/m4.thrift"}, root: "idl", out: "parent/out", minMods: 2, mayReject: true},
 	{name: "relative-arguments", paths: []string{"idl/a/svc.thrift", "idl/b/m2.thrift", "idl/a/deep/m3.thrift", "idl/m4.thrift"}, root: "idl", out: "parent/out", minMods: 1, relArgs: true},
 }
